@@ -435,3 +435,7 @@ pub fn decode_null_value(rows: &mut [&[u8]], options: SortOptions) {
         *row = &row[2..];
     }
 }
+
+#[cfg(kani)]
+#[path = "/verif/kani/arrow-row/variable.rs"]
+mod verif_kani;
